@@ -36,10 +36,15 @@ type c09Event struct {
 	End    int
 }
 
-func c09ErrClass(err error) string {
+func c09ErrClass(err error) (cls string) {
 	if err == nil {
 		return ""
 	}
+	defer func() {
+		if x := recover(); x != nil {
+			cls = fmt.Sprintf("other:unusable error value %#v (inspecting it panics: %v)", err, x)
+		}
+	}()
 	switch errors.Cause(err) {
 	case io.EOF:
 		return "eof"
@@ -608,15 +613,21 @@ func c09Seq(t *testing.T) {
 		maxLen = 6
 	}
 	ev.Bound("sequential_word_length", maxLen)
+	defer func() { errors.TraceEnabled = true }()
 	for _, cfg := range []struct {
-		capn int
-		file bool
-	}{{BuffSizeAlign, false}, {BuffSizeAlign + 1, false}, {3 * BuffSizeAlign, false}, {FileSizeAlign, true}, {3 * FileSizeAlign, true}} {
+		capn     int
+		file     bool
+		traceOff bool // errors.TraceEnabled = false: errors travel unwrapped
+	}{{BuffSizeAlign, false, false}, {BuffSizeAlign + 1, false, false}, {3 * BuffSizeAlign, false, false}, {FileSizeAlign, true, false}, {3 * FileSizeAlign, true, false}, {BuffSizeAlign, false, true}} {
 		if cfg.file && !ev.Thorough() {
 			continue
 		}
+		errors.TraceEnabled = !cfg.traceOff
 		real := align(cfg.capn, BuffSizeAlign)
 		ml := maxLen
+		if cfg.traceOff {
+			ml = maxLen - 1
+		}
 		if cfg.file {
 			real = align(cfg.capn, FileSizeAlign)
 			ml = 3
